@@ -53,6 +53,11 @@ func (p *parser) expression(prec int) (Node, error) {
 		return nil, err
 	}
 
+	return p.infix(node, prec)
+}
+
+func (p *parser) infix(node Node, prec int) (Node, error) {
+	var err error
 	newPrec := precedence(p.curr.Type)
 	for newPrec > prec {
 		switch p.curr.Type {
@@ -89,7 +94,7 @@ func (p *parser) expression(prec int) (Node, error) {
 				return nil, err
 			}
 
-			right, err := p.projection(precedence(lexer.ObjectWildcardToken))
+			right, err := p.projection(projectionPrecedence)
 			if err != nil {
 				return nil, err
 			}
@@ -350,7 +355,7 @@ func (p *parser) expression(prec int) (Node, error) {
 				return nil, err
 			}
 
-			right, err := p.projection(newPrec)
+			right, err := p.projection(projectionPrecedence)
 			if err != nil {
 				return nil, err
 			}
@@ -377,7 +382,7 @@ func (p *parser) expression(prec int) (Node, error) {
 			}
 
 			if project {
-				right, err := p.projection(newPrec)
+				right, err := p.projection(projectionPrecedence)
 				if err != nil {
 					return nil, err
 				}
@@ -1637,7 +1642,7 @@ func (p *parser) primaryExpression() (Node, error) {
 			return nil, err
 		}
 
-		child, err := p.projection(precedence(lexer.ObjectWildcardToken))
+		child, err := p.projection(projectionPrecedence)
 		if err != nil {
 			return nil, err
 		}
@@ -1654,7 +1659,7 @@ func (p *parser) primaryExpression() (Node, error) {
 			return nil, err
 		}
 
-		child, err := p.projection(precedence(lexer.ObjectWildcardToken))
+		child, err := p.projection(projectionPrecedence)
 		if err != nil {
 			return nil, err
 		}
@@ -1784,7 +1789,7 @@ func (p *parser) primaryExpression() (Node, error) {
 			}
 
 			if project {
-				right, err := p.projection(precedence(lexer.OpenSqBraceToken))
+				right, err := p.projection(projectionPrecedence)
 				if err != nil {
 					return nil, err
 				}
@@ -1911,158 +1916,40 @@ func (p *parser) projection(prec int) (Node, error) {
 				return nil, err
 			}
 
-			node, err = p.expression(prec)
-			if err != nil {
-				return nil, err
-			}
+			return p.expression(prec)
 		default:
 			return nil, &unexpectedTokenError{p.curr.Value}
 		}
-	case lexer.FilterToken:
-		if err := p.advance(); err != nil {
-			return nil, err
-		}
-
-		filter, err := p.filter()
-		if err != nil {
-			return nil, err
-		}
-
-		node = &FilterCurrentNode{
-			Filter: filter,
-		}
+	case lexer.ArrayWildcardToken,
+		lexer.FilterToken:
+		return p.expression(prec)
 	case lexer.ObjectWildcardToken:
 		if p.next.Type == lexer.EndToken {
 			if err := p.advance(); err != nil {
 				return nil, err
 			}
 
-			node = ObjectValuesCurrentNode{}
-		} else {
-			p.setCurrent(lexer.Token{
-				Type:  lexer.AsteriskToken,
-				Value: p.curr.Value[1:],
-			})
-
-			node, err = p.expression(prec)
-			if err != nil {
-				return nil, err
-			}
+			return ObjectValuesCurrentNode{}, nil
 		}
+
+		p.setCurrent(lexer.Token{
+			Type:  lexer.AsteriskToken,
+			Value: p.curr.Value[1:],
+		})
+
+		return p.expression(prec)
 	case lexer.OpenSqBraceToken:
-		if err := p.advance(); err != nil {
-			return nil, err
+		if p.next.Type != lexer.IntegerLiteralToken && p.next.Type != lexer.ColonToken {
+			return nil, &unexpectedTokenError{p.next.Value}
 		}
 
-		node, _, err = p.index(nil)
-		if err != nil {
-			return nil, err
-		}
+		return p.expression(prec)
 	default:
 		return nil, nil
 	}
 
-	newPrec := precedence(p.curr.Type)
-	for newPrec > prec {
-		switch p.curr.Type {
-		case lexer.DotToken:
-			switch p.next.Type {
-			case lexer.ArrayWildcardToken:
-				if err := p.advance2(); err != nil {
-					return nil, err
-				}
-
-				node = &SelectArraySingleNode{
-					Child: node,
-					Field: ObjectValuesCurrentNode{},
-				}
-			case lexer.OpenBraceToken:
-				if err := p.advance2(); err != nil {
-					return nil, err
-				}
-
-				node, err = p.selectObject(node)
-				if err != nil {
-					return nil, err
-				}
-			case lexer.OpenSqBraceToken:
-				if err := p.advance2(); err != nil {
-					return nil, err
-				}
-
-				node, err = p.selectArray(node)
-				if err != nil {
-					return nil, err
-				}
-			case lexer.QuotedIdentifierToken,
-				lexer.UnquotedIdentifierToken:
-				if err := p.advance(); err != nil {
-					return nil, err
-				}
-
-				node, err = p.expression(newPrec)
-				if err != nil {
-					return nil, err
-				}
-			default:
-				return nil, &unexpectedTokenError{p.curr.Value}
-			}
-		case lexer.FilterToken:
-			if err := p.advance(); err != nil {
-				return nil, err
-			}
-
-			filter, err := p.filter()
-			if err != nil {
-				return nil, err
-			}
-
-			node = &FilterNode{
-				Child:  node,
-				Filter: filter,
-			}
-		case lexer.ObjectWildcardToken:
-			if p.curr.Type == lexer.EndToken {
-				if err := p.advance(); err != nil {
-					return nil, err
-				}
-
-				node = &ObjectValuesNode{
-					Child: node,
-				}
-			} else {
-				p.setCurrent(lexer.Token{
-					Type:  lexer.AsteriskToken,
-					Value: p.curr.Value[1:],
-				})
-
-				right, err := p.expression(newPrec)
-				if err != nil {
-					return nil, err
-				}
-
-				node = &ProjectObjectNode{
-					Left:  node,
-					Right: right,
-				}
-			}
-		case lexer.OpenSqBraceToken:
-			if err := p.advance(); err != nil {
-				return nil, err
-			}
-
-			node, _, err = p.index(node)
-			if err != nil {
-				return nil, err
-			}
-		default:
-			return nil, &unexpectedTokenError{p.curr.Value}
-		}
-
-		newPrec = precedence(p.curr.Type)
-	}
-
-	return node, nil
+	// The remaining selectors apply to the value selected so far.
+	return p.infix(node, prec)
 }
 
 func (p *parser) selectArray(child Node) (Node, error) {
